@@ -26,8 +26,8 @@ BUDGET = {"quick": 50, "thorough": 420}
 RULE = "index k -> one routing cell + request sequence. Non-trivial = proxy involved with TLS or a refusal/close; distinct = distinct cell tuple."
 ASSUMPTIONS = ["a garbage CONNECT reply is not a status-coded refusal: any urllib3 error with an empty origin log is accepted there"]
 REQUIRED_PROBES = {
-    "quick": ["tunnel_ok", "forward_ok", "forward_https_optin", "optin_flag_without_effect", "prelude_forwarded_with_same_headers_object", "connect_refused_no_leak", "proxy_cert_bad_no_leak", "origin_cert_bad_no_request", "retunnelled_after_close", "ipv6_connect_bracketed", "tls_in_tls", "proxy_headers_kept_out_of_tunnel"],
-    "thorough": ["tunnel_ok", "forward_ok", "forward_https_optin", "optin_flag_without_effect", "prelude_forwarded_with_same_headers_object", "connect_refused_no_leak", "proxy_cert_bad_no_leak", "origin_cert_bad_no_request", "retunnelled_after_close", "ipv6_connect_bracketed", "tls_in_tls", "proxy_headers_kept_out_of_tunnel"],
+    "quick": ["tunnel_ok", "forward_ok", "forward_https_optin", "optin_flag_without_effect", "prelude_forwarded_with_same_headers_object", "retunnel_refused_proxy_error", "connect_refused_no_leak", "proxy_cert_bad_no_leak", "origin_cert_bad_no_request", "retunnelled_after_close", "ipv6_connect_bracketed", "tls_in_tls", "proxy_headers_kept_out_of_tunnel"],
+    "thorough": ["tunnel_ok", "forward_ok", "forward_https_optin", "optin_flag_without_effect", "prelude_forwarded_with_same_headers_object", "retunnel_refused_proxy_error", "connect_refused_no_leak", "proxy_cert_bad_no_leak", "origin_cert_bad_no_request", "retunnelled_after_close", "ipv6_connect_bracketed", "tls_in_tls", "proxy_headers_kept_out_of_tunnel"],
 }
 
 DEST_HOSTS = {"name": "origin.test", "ip4": "10.0.0.5", "ip6": "[fd00::5]", "upper": "Origin.Test"}
@@ -45,7 +45,8 @@ def gen(rng):
         "forwarding": rng.random() < 0.4,
         "proxy_cert": "ok" if ps == "http" or rng.random() < 0.8 else "bad",
         "origin_cert": "ok" if rng.random() < 0.8 else rng.choice(["bad_issuer", "mismatch"]),
-        "connect": rng.choice(["200", "200", "200", "403", "407", "502", "garbage", "eof"]),
+        # ("200_then_N": the first tunnel is granted, every later CONNECT -- the re-tunnelling of a pooled connection -- is refused)
+        "connect": rng.choice(["200", "200", "200", "403", "407", "502", "garbage", "eof", "200_then_407", "200_then_502"]),
         "proxy_headers": rng.choice([[], [PROXY_HDRS[0]], PROXY_HDRS]),
         "req_headers": rng.choice([[], [["X-App", "1"]], [["Authorization", "Bearer app"], ["X-App", "1"]]]),
         "host": rng.choice(list(DEST_HOSTS)),
@@ -82,6 +83,8 @@ def run(sc: dict) -> Result:
         k = c["connect"]
         if k == "200":
             pass
+        elif k.startswith("200_then_"):
+            connects = [{"k": "resp", "status": 200}] + [{"k": "resp", "status": int(k[9:])}] * 4
         elif k in ("403", "407", "502"):
             connects = [{"k": "resp", "status": int(k)}] * 4
         elif k == "garbage":
@@ -124,11 +127,13 @@ def run(sc: dict) -> Result:
             kw["use_forwarding_for_https"] = True
         pm = urllib3.ProxyManager(proxy_url, **kw)
         outcomes = []
+        prelude_reached_destination = 0
         if c.get("prelude_http"):
             try:
                 if c["prelude_http"] == "redirect":
                     w.exchanges.insert(0, {"k": "resp", "status": 302, "headers": [["Location", url + "?i=r"]], "body": ""})
                     pm.request("GET", f"http://{host}/pre", headers=rh, retries=1)
+                    prelude_reached_destination = 1
                 else:
                     pm.request("GET", f"http://{host}/pre", headers=rh)
                 res.probes["prelude_forwarded_with_same_headers_object"] += 1
@@ -155,7 +160,8 @@ def run(sc: dict) -> Result:
         origin_plain = sum(len(tp.plain_in) for tp in origin_tls)
         ph_names = {k_.lower() for k_, _ in c["proxy_headers"]}
         proxy_should_fail_tls = ps == "https" and c["proxy_cert"] == "bad"
-        connect_refused = tunnel_expected and c["connect"] != "200"
+        refused_later = tunnel_expected and c["connect"].startswith("200_then_")
+        connect_refused = tunnel_expected and c["connect"] != "200" and not refused_later
         origin_bad = tunnel_expected and c["origin_cert"] != "ok" and not proxy_should_fail_tls and not connect_refused
         # 1. nothing addressed to the origin ever carries proxy headers
         for q in at_origin:
@@ -197,7 +203,23 @@ def run(sc: dict) -> Result:
                     missing = [k_ for k_, _ in c["proxy_headers"] if q.header(k_) is None]
                     if missing:
                         res.bad("proxy_header_missing_on_connect", f"{missing} not on CONNECT: {q.headers}")
-            if connect_refused:
+            if refused_later and not origin_bad:
+                # the first tunnel works; a request that needs a second one must fail as a proxy refusal and never reach the origin
+                n_ok = sum(1 for o in outcomes if o[0] == "ok") + prelude_reached_destination
+                if len(at_origin) > n_ok:
+                    res.bad("request_sent_after_refused_connect", f"{len(at_origin)} requests reached the origin, only {n_ok} calls succeeded (CONNECT answers {c['connect']})")
+                for q in at_origin:
+                    first_on_sock = next((p_ for p_ in w.requests if p_.sid == q.sid), None)
+                    if first_on_sock is None or first_on_sock.method != "CONNECT":
+                        res.bad("request_without_tunnel", f"socket {q.sid} carried {q.method} {q.target} without a preceding CONNECT")
+                for o in outcomes:
+                    if o[0] == "exc":
+                        root = H.root_reason(o[1])
+                        if not (isinstance(o[1], (ProxyError, SSLError)) or isinstance(root, (ProxyError, SSLError)) or _has_proxy_error(o[1])):
+                            res.bad(f"wrong_error:{type(root).__name__}", f"re-tunnelling refused ({c['connect']}): {o[1]!r:.160}")
+                        else:
+                            res.probes["retunnel_refused_proxy_error"] += 1
+            elif connect_refused:
                 if at_origin or origin_plain:
                     res.bad("request_sent_after_refused_connect", f"{len(at_origin)} requests / {origin_plain} plaintext bytes reached the origin although CONNECT was answered {c['connect']}")
                 for o in outcomes:
@@ -219,6 +241,8 @@ def run(sc: dict) -> Result:
                     if o[0] == "ok":
                         res.bad("unverified_origin_accepted", f"origin cert {c['origin_cert']}")
                     elif o[0] == "exc" and not isinstance(H.root_reason(o[1]), SSLError) and not isinstance(o[1], SSLError):
+                        if refused_later and _has_proxy_error(o[1]):
+                            continue  # this attempt did not get as far as the origin: its CONNECT was refused
                         res.bad(f"wrong_error:{type(H.root_reason(o[1])).__name__}", repr(o[1])[:160])
                 if not res.violations:
                     res.probes["origin_cert_bad_no_request"] += 1
